@@ -180,7 +180,7 @@ def _read_closures(tam, q, q0l, q1l, p, particles, lay):
         's': [float(md), float(q1l.Sa), float(q1l.Ta), float(q1l.ua), float(q1l.va), float(q1l.wa), float(seawater.cp()),
               float(p.g), float(p.gamma), float(p.rho_r), float(p.Ru), float(q1l.Fb), float(q1l.M), float(q1l.rho),
               float(q1l.rho_a), float(q1l.u), float(q1l.v), float(q1l.w), float(q1l.V), float(q1l.T), float(fe)],
-        'nchems': nch,
+        'nchems': nch, 'chem_names': [str(x) for x in q1l.chem_names],
         'c_chems': np.asarray(q1l.c_chems, dtype=float), 'ca_chems': np.asarray(q1l.ca_chems, dtype=float),
         'cpe': np.asarray(q1l.cpe, dtype=float), 'k_bio': kb, 'ca_tracers': np.asarray(q1l.ca_tracers, dtype=float),
     }
@@ -190,6 +190,7 @@ def _read_closures(tam, q, q0l, q1l, p, particles, lay):
         sol = bool(pt.particle.issoluble)
         ps.append({
             'integrate': bool(pt.integrate), 'issoluble': sol, 'nc': int(pt.particle.nc),
+            'composition': [str(x) for x in pt.composition],
             's': [float(pt.A), float(pt.nbe), float(pt.rho_p), float(pt.cp), float(pt.beta_T), float(pt.T), float(dtp[i]),
                   float(up[i, 1]), float(up[i, 2]), float(q[sl['X'][0] + 1]), float(q[sl['X'][0] + 2])],
             'beta': np.atleast_1d(np.asarray(pt.beta, dtype=float)), 'Cs': np.atleast_1d(np.asarray(pt.Cs, dtype=float)),
@@ -221,17 +222,29 @@ def budgets(qp, env, ps, lay):
     out.append(('salt', qp[1], md * Sa, abs(md * Sa)))
     out.append(('x-momentum', qp[3], md * ua, abs(md * ua)))
     out.append(('y-momentum', qp[4], md * va, abs(md * va)))
-    nch = env['nchems']
     a_c, e_c = lay['chems']
-    # compounds
-    for c in range(nch):
-        lhs, scale = qp[a_c + c], abs(qp[a_c + c])
-        ent = md / rho_a * env['ca_chems'][c]
-        rhs = ent - env['k_bio'][c] * env['cpe'][c]
-        scale += abs(ent) + abs(env['k_bio'][c] * env['cpe'][c])
+    names = env.get('chem_names', [])
+    # compounds, matched BY NAME: the particle-side term of compound X sits in the particle's own composition.index(X) slot,
+    # the pool / element-biodegradation term in the element's chem_names.index(X) slot, the ambient concentration is the
+    # profile's value for the NAME X (env['ca_by_name'] when the oracle supplies it)
+    tracked = []
+    for p in ps:
+        if p['issoluble']:
+            tracked += [x for x in p['composition'] if x not in tracked]
+    for X in tracked:
+        if X not in names:
+            out.append(('compound', float('nan'), 0., 1.))        # a dissolving compound without a pool slot
+            continue
+        e = names.index(X)
+        ca = env['ca_by_name'][X] if 'ca_by_name' in env else env['ca_chems'][e]
+        lhs, scale = qp[a_c + e], abs(qp[a_c + e])
+        ent = md / rho_a * ca
+        rhs = ent - env['k_bio'][e] * env['cpe'][e]
+        scale += abs(ent) + abs(env['k_bio'][e] * env['cpe'][e])
         for i, p in enumerate(ps):
-            if not p['issoluble']:
+            if not p['issoluble'] or X not in p['composition']:
                 continue
+            c = p['composition'].index(X)
             a, _e = lay['particles'][i]['m']
             lhs += qp[a + c]
             scale += abs(qp[a + c])
@@ -250,7 +263,9 @@ def budgets(qp, env, ps, lay):
         scale += abs(h)
         if p['integrate'] and p['issoluble']:
             A, nbe, dtp = p['s'][0], p['s'][1], p['s'][6]
-            diss = A * nbe * p['beta'] * (p['Cs'] - env['c_chems']) * dtp          # mass leaving the particle per compound
+            # concentration of the particle's j-th compound in the plume water, by name
+            cw = np.array([env['c_chems'][names.index(x)] if x in names else float('nan') for x in p['composition']])
+            diss = A * nbe * p['beta'] * (p['Cs'] - cw) * dtp          # mass leaving the particle per compound
             hs = float(np.sum(diss * p['negdH'] * Ru / p['M']))
             rhs += hs
             scale += float(np.sum(np.abs(diss * p['negdH'] * Ru / p['M'])))
@@ -277,6 +292,7 @@ def _oracle_env(env, ind):
     s[1], s[2], s[3], s[4], s[5], s[14] = ind['Sa'], ind['Ta'], ind['ua'], ind['va'], ind['wa'], ind['rho_a']
     e['s'] = s
     e['ca_chems'], e['ca_tracers'], e['c_chems'] = ind['ca_chems'], ind['ca_tracers'], ind['c_chems']
+    e['ca_by_name'] = ind['ca_by_name']
     return e
 
 
@@ -629,6 +645,12 @@ def _independent(tam, prf, bpm, q_prev, q, parts, lay):
     d = _ambient_at(tam, prf, bpm, q[9])
     d['S'], d['T'] = q[1] / q[0], q[2] / (q[0] * cpw)
     d['rho'] = float(sw.density(float(d['T']), float(d['S']), d['Pa']))
+    allnames = []
+    for pt in parts:
+        if pt.particle.issoluble:
+            allnames += [str(x) for x in pt.composition if str(x) not in allnames]
+    # ambient concentration of every dissolving compound, asked from the profile BY NAME
+    d['ca_by_name'] = {x: float(prf.get_values(float(q[9]), [x])[0]) for x in allnames}
     a0 = _ambient_at(tam, prf, bpm, q_prev[9])
     d['rho_prev'] = float(sw.density(float(q_prev[2] / (q_prev[0] * cpw)), float(q_prev[1] / q_prev[0]), a0['Pa']))
     a, e = lay['chems']
@@ -756,6 +778,11 @@ def run(ctx, lean_ok):
                 ctx.count('mode=' + mode)
                 for p in res['ps']:
                     ctx.count(('soluble' if p['issoluble'] else 'inert') + ('-in' if p['integrate'] else '-out'))
+                sols = [p for p in res['ps'] if p['issoluble']]
+                if sols:
+                    ctx.count('states-with-soluble-particle')
+                    if any(len(p['composition']) >= 2 and p['composition'] != sorted(p['composition']) for p in sols):
+                        ctx.count('states-with-unsorted-composition')
                 zc = zd = False
                 for p in res['ps']:
                     if p['issoluble'] and p['integrate'] and float(np.sum(p['m'])) > 0 and len(p['m']) == res['env']['nchems']:
@@ -790,6 +817,7 @@ def run(ctx, lean_ok):
                n_live_out >= 0.10 * (nstate_ok + nstate_rej), '')
     floors['live-outside-particle-finite-coordinates:beyond-b'] = 20
     floors['live-outside-particle-finite-coordinates:inside-b'] = 20
+    floors['states-with-unsorted-composition'] = int(math.ceil(0.5 * ctx.hist.get('states-with-soluble-particle', 0)))
     floors['zero-mass-component-taking-up-from-water'] = int(math.ceil(0.15 * max(nstate_ok, 1)))
     floors['zero-mass-component-used-up'] = 10
     short = {k: ctx.hist.get(k, 0) for k, v in floors.items() if ctx.hist.get(k, 0) < v}
